@@ -31,6 +31,10 @@ impl VIndex {
         ensures r matches Some(e) ==> self.trees().dom().contains(*id) && self.trees()[*id] == e.pack,
                 r is None ==> !self.trees().dom().contains(*id),
     { unimplemented!() }
+    #[verifier::external_body]
+    pub fn has_tree(&self, id: &TreeId) -> (r: bool) ensures r == self.trees().dom().contains(*id), { unimplemented!() }
+    #[verifier::external_body]
+    pub fn has_data(&self, id: &DataId) -> (r: bool) ensures r == self.data().dom().contains(*id), { unimplemented!() }
     // the untyped lookup the typed ones are wrappers of (C17): by blob type and raw id
     #[verifier::external_body]
     pub fn get_id(&self, tpe: BlobType, id: &BlobId) -> (r: Option<IndexEntry>)
